@@ -405,17 +405,31 @@ def t3_tsv(ctx):
               'absent fields are written as empty cells (row.get(field, None))',
               'absent fields are not written as empty cells')
     ff = w.real_params[2] if len(w.real_params) > 2 else 'first_field'
-    order_ok = False
+    order_ok = order_bad = False
+    node = None
     for a in w.nodes(ast.Assign):
         v = a.value
-        if isinstance(v, ast.BinOp) and isinstance(v.op, ast.Add) and isinstance(v.left, ast.List) and \
-                len(v.left.elts) == 1 and unparse(v.left.elts[0]) == ff and isinstance(v.right, ast.Call) and \
-                dotted(v.right.func) == 'sorted' and not q.kwarg(v.right, 'reverse') and not q.kwarg(v.right, 'key'):
-            order_ok = True
-            node = a
-    ctx.check(order_ok, 'C18.T3', w, node if order_ok else w.node.name,
-              'requested first column first, remaining columns in sorted order',
-              'column order is not [first_field] + sorted(others)')
+        if isinstance(v, ast.BinOp) and isinstance(v.op, ast.Add):
+            sides = (v.left, v.right)
+            srt = [x for x in sides if isinstance(x, ast.Call) and dotted(x.func) == 'sorted']
+            oth = [x for x in sides if x not in srt]
+            if len(srt) == 1 and len(oth) == 1:
+                o = oth[0]
+                # the first-field part: [first_field], or `[first_field] if <present> else []`
+                lst = o if isinstance(o, ast.List) else (o.body if isinstance(o, ast.IfExp) and isinstance(o.body, ast.List) else None)
+                has_ff = lst is not None and len(lst.elts) == 1 and unparse(lst.elts[0]) == ff
+                plain = not q.kwarg(srt[0], 'reverse') and not q.kwarg(srt[0], 'key')
+                node = a
+                if has_ff and plain and v.left is o:
+                    order_ok = True
+                elif has_ff and (v.right is o or not plain):
+                    order_bad = True
+    if order_ok:
+        ctx.holds('C18.T3', w, 'requested first column first, remaining columns in sorted order', node)
+    elif order_bad:
+        ctx.violated('C18.T3', w, node, 'column order is `%s`, not [first_field] + sorted(others)' % unparse(node.value))
+    else:
+        ctx.undecided('C18.T3', w, 'construction of the column order not recognised')
     # header row and data rows use the same field list
     wr_rows = q.calls_named(w, 'writerow', 'writerows')
     hdr = [c for c in wr_rows if q.method_name(c) == 'writerow']
